@@ -1080,6 +1080,12 @@ func (f *Flow) assign(env Env, t *Term, s ISet) {
 		if a != nil && ok {
 			if _, changed := a.wrap(bits, signed); !changed {
 				f.assign(env, t.A, s)
+			} else if ab, asg, aok := intTypeInfo(f.w, t.A.T); aok && ab == bits && asg != signed {
+				// a same-width reinterpretation (uint64(x) of an int64 x) is a bijection modulo
+				// 2^n: uint64(x) ∈ s ⇔ x ∈ s read back in x's own type — the one-comparison
+				// range test `uint64(x-lo) <= hi-lo` on a signed x
+				nw, _ := s.wrap(ab, asg)
+				f.assign(env, t.A, nw)
 			}
 		}
 	case TBin:
